@@ -127,10 +127,19 @@ def _ir_type_desc(t):
     return ("other", str(t))
 
 
-def compile_binary(opstr, L, R, T):
-    """-> ('reject', detail) | ('accept', static type of the returned value, operand types of the instruction)"""
+LITERAL = {("scalar", "int"): "2", ("scalar", "float"): "2.5"}
+
+
+def compile_binary(opstr, L, R, T, form="vars"):
+    """-> ('reject', detail) | ('accept', static type of the returned value, operand types of the instruction)
+    form: both operands are parameters ("vars"), or the right / left one is a literal constant of its type ("lit-right" / "lit-left")"""
     from nsl import Compiler, LinearIR
-    src = f"export function f({O3.spell(L)} a, {O3.spell(R)} b) -> {O3.spell(T)} {{ return a {opstr} b; }}"
+    if form == "lit-right":
+        src = f"export function f({O3.spell(L)} a) -> {O3.spell(T)} {{ return a {opstr} {LITERAL[R]}; }}"
+    elif form == "lit-left":
+        src = f"export function f({O3.spell(R)} b) -> {O3.spell(T)} {{ return {LITERAL[L]} {opstr} b; }}"
+    else:
+        src = f"export function f({O3.spell(L)} a, {O3.spell(R)} b) -> {O3.spell(T)} {{ return a {opstr} b; }}"
     out = io.StringIO()
     try:
         with contextlib.redirect_stdout(out), contextlib.redirect_stderr(out):
@@ -157,13 +166,13 @@ def _conc(desc):
     return tuple(z3.simplify(x).as_long() if z3.is_expr(x) else x for x in desc) if desc else None
 
 
-def _check_program(opstr, L, R):
+def _check_program(opstr, L, R, form="vars"):
     acc, res, lo, ro = O3.binary_spec(opstr, L, R)
     if acc is None:
         return None, None
     want_acc = z3.is_true(z3.simplify(acc))
     T = _conc(res) if want_acc else ("scalar", "int")
-    src, got = compile_binary(opstr, L, R, T)
+    src, got = compile_binary(opstr, L, R, T, form)
     if got[0] == "syntax":
         return src, dict(source=src, observed="syntax error")
     if want_acc:
@@ -180,14 +189,18 @@ def _check_program(opstr, L, R):
 def _programs(inst):
     res = dict(paths=0, queries=0, unsat=0, sat=0, violations=[], errors=[], nontrivial=True)
     bad = []
-    for L in O3.SPELLABLE:
-        for R in O3.SPELLABLE:
-            src, b = _check_program(inst["op"], L, R)
-            if src is None:
-                continue
-            res["paths"] += 1
-            if b:
-                bad.append((L, R, b))
+    forms = [(L, R, "vars") for L in O3.SPELLABLE for R in O3.SPELLABLE]
+    # an operand that is a literal constant is typed like a parameter of the literal's type (an int literal next to a uint stays an int)
+    forms += [(L, R, "lit-right") for L in O3.SPELLABLE for R in LITERAL]
+    forms += [(L, R, "lit-left") for L in LITERAL for R in O3.SPELLABLE]
+    for L, R, form in forms:
+        src, b = _check_program(inst["op"], L, R, form)
+        if src is None:
+            continue
+        res["paths"] += 1
+        if b:
+            b["form"] = form
+            bad.append((L, R, b))
     seen = set()
     findings = core.load_findings(PID)
     known = {}
@@ -211,7 +224,7 @@ def _programs(inst):
             continue
         seen.add(key)
         res["violations"].append(dict(what=f"operator typing '{inst['op']}' ({len(bad)} type pairs differ), e.g. {b}",
-                                      replay=dict(harness="C09", inst=dict(part="program"), op=inst["op"], L=L, R=R)))
+                                      replay=dict(harness="C09", inst=dict(part="program"), op=inst["op"], L=L, R=R, form=b.get("form", "vars"))))
     return res
 
 
@@ -221,7 +234,7 @@ def replay(spec):
         r = _module_batch(inst)
         return dict(violations=[v["what"] for v in r["violations"]]) if r["violations"] else None
     if inst.get("part") == "program":
-        _, b = _check_program(spec["op"], _tup(spec["L"]), _tup(spec["R"]))
+        _, b = _check_program(spec["op"], _tup(spec["L"]), _tup(spec["R"]), spec.get("form", "vars"))
         return b
     if inst.get("part") == "typing":
         from nsl import types, op, Errors
